@@ -183,6 +183,10 @@ fn generate(rng: &mut Rng, index: u64) -> ConnScenario {
         _ => {}
     }
     client.auth_cookie = presented;
+    // a login (not a transfer) whose client answers the session-cookie request under the authentication key, with its auth cookie
+    if intent == 2 && rng.chance(1, 3) {
+        client.cookie_rekey = vec![("passage:session".to_string(), "passage:authentication".to_string())];
+    }
     // (the answer rarely comes at the very start of a wall-clock second)
     let think_sub = if with_prior { 0 } else { *rng.pick(&[0u64, 0, ms(1), ms(500), ms(999)]) };
     if think_s > 0 || think_sub > 0 {
@@ -228,6 +232,14 @@ pub fn check(sc: &ConnScenario, out: &ConnOutcome, rep: &mut RunReport) {
     let enc_req = out.view.first("EncryptionRequest");
     let auth_called = out.events("svc:auth", "call").count() > 0;
     let ls = login_success_identity(out);
+    if !c.cookie_rekey.is_empty() {
+        *rep.faults.entry("cookie_answered_under_another_key".into()).or_insert(0) += 1;
+        // whatever the server makes of an answer under a key it did not ask for: a login is never let in without a verdict
+        if c.intent == 2 && (enc_req.is_some_and(|e| e.fields["should_authenticate"].as_u64() == Some(0)) || (ls.is_some() && !auth_called)) {
+            rep.violate("skip_only_if_valid", format!("a login (intent 2) that answered the session-cookie request under another key was let in without authentication: packets {:?}", out.view.kinds()));
+        }
+        return;
+    }
     let Some(enc_req) = enc_req else {
         rep.violate(
             &format!("told_to_authenticate/{}", out.result),
